@@ -156,4 +156,169 @@ example : get_volume_mc_only (K := Int) (fun l => l.foldl (fun a s => match s wi
       | .sphere n => 100 * a + 10 + n | .frustum x y => 100 * a + 50 + 7 * x + y) 0) := by
   decide +kernel
 
+/-! ### the dispatch layer of `utils/volumetric_object.py` -/
+section objects
+
+/-- the class hierarchy of `utils/volumetric_object.py` as the translator read it on this run (it is written into every generated `isinstance`
+test; when a `class` statement of the file changes, the generated tests change and the theorems below no longer apply) -/
+local notation "HIER" => ([("VolObject", ["ABC"]), ("VolMCObject", ["VolObject", "ABC"]), ("VolSDFObject", ["VolMCObject"]), ("VolSDFIntersection", ["VolSDFObject", "ABC", "Generic"]), ("VolSDFUnion", ["VolSDFObject", "ABC", "Generic"]), ("VolSDFDifference", ["VolSDFObject", "ABC", "Generic"]), ("VolSphere", ["VolSDFObject"]), ("VolFrustumCone", ["VolSDFObject"]), ("VolSphere2Intersection", ["VolSDFIntersection"]), ("VolSphere2Union", ["VolSDFUnion"]), ("VolSphereFrustumConeIntersection", ["VolSDFIntersection"]), ("VolSphereFrustumConeUnion", ["VolSDFUnion"])] : List (String × List String))
+
+/-- the classes whose instances are the terms `Py.VObj` -/
+def objClasses : List String :=
+  ["VolSphere", "VolFrustumCone", "VolSDFUnion", "VolSDFIntersection", "VolSDFDifference", "VolSphere2Union", "VolSphere2Intersection",
+   "VolSphereFrustumConeUnion", "VolSphereFrustumConeIntersection"]
+
+/-- what the generated `isinstance` tests answer on the known classes: only a sphere is a `VolSphere`, only a frustum a `VolFrustumCone`, every
+object is a `VolSDFObject` -/
+theorem class_facts : ∀ c ∈ objClasses,
+    Py.subclassF HIER (HIER).length c "VolSphere" = (c == "VolSphere") ∧ Py.subclassF HIER (HIER).length c "VolFrustumCone" = (c == "VolFrustumCone")
+      ∧ Py.subclassF HIER (HIER).length c "VolSDFObject" = true := by
+  decide +kernel
+
+/-- the classes of the composite objects -/
+def compositeClasses : List String :=
+  ["VolSDFUnion", "VolSDFIntersection", "VolSDFDifference", "VolSphere2Union", "VolSphere2Intersection",
+   "VolSphereFrustumConeUnion", "VolSphereFrustumConeIntersection"]
+
+/-- an object of the library: a sphere, a frustum, or a composite whose class is one of the composite classes of the file -/
+def Known : Py.VObj → Prop
+  | .node c _ _ => c ∈ compositeClasses
+  | _ => True
+
+theorem known_cls (x : Py.VObj) (h : Known x) : x.cls ∈ objClasses := by
+  cases x with
+  | sphere n => simp [Py.VObj.cls, objClasses]
+  | frustum a b => simp [Py.VObj.cls, objClasses]
+  | node c a b =>
+    have hc : c ∈ compositeClasses := h
+    simp [compositeClasses] at hc
+    simp [Py.VObj.cls, objClasses]
+    tauto
+
+theorem composite_ne (c : String) (hc : c ∈ compositeClasses) : c ≠ "VolSphere" ∧ c ≠ "VolFrustumCone" := by
+  simp [compositeClasses] at hc
+  rcases hc with rfl | rfl | rfl | rfl | rfl | rfl | rfl <;> decide
+
+theorem isA_facts (x : Py.VObj) (hk : Known x) :
+    Py.VObj.isA HIER x "VolSphere" = (x.cls == "VolSphere") ∧ Py.VObj.isA HIER x "VolFrustumCone" = (x.cls == "VolFrustumCone")
+      ∧ Py.VObj.isA HIER x "VolSDFObject" = true :=
+  class_facts x.cls (known_cls x hk)
+
+def notImplemented : Py.Exc := ⟨"NotImplementedError", "", []⟩
+
+/-- `VolSDFObject.union / intersect / subtract` (inherited by every composite): the generic SDF composite of the two operands, in this order -/
+theorem sdf_ops_eq (self obj : Py.VObj) (hx : Known obj) :
+    sdf_union self obj = some (.ok (.node "VolSDFUnion" self obj)) ∧ sdf_intersect self obj = some (.ok (.node "VolSDFIntersection" self obj))
+      ∧ sdf_subtract self obj = some (.ok (.node "VolSDFDifference" self obj)) := by
+  obtain ⟨-, -, h3⟩ := isA_facts obj hx
+  simp [sdf_union, sdf_union.body, sdf_intersect, sdf_intersect.body, sdf_subtract, sdf_subtract.body, Py.seq, Py.skip, Py.finishX, h3]
+
+/-- an object that is no `VolSDFObject` (no class of the file): `NotImplementedError` -/
+theorem sdf_union_foreign (self obj : Py.VObj) (hx : Py.VObj.isA HIER obj "VolSDFObject" = false) :
+    sdf_union self obj = some (.error notImplemented) := by
+  simp [sdf_union, sdf_union.body, Py.seq, Py.skip, Py.raise, Py.finishX, hx, notImplemented]
+
+/-- **`VolSphere.union`**: with a sphere the two-sphere union, with a frustum the sphere-frustum union (sphere first), with anything else the
+generic SDF union; never an exception on the library's own objects -/
+theorem sphere_union_eq (self obj : Py.VObj) (hx : Known obj) :
+    sphere_union self obj = some (.ok (match obj with
+      | .sphere _ => .node "VolSphere2Union" self obj
+      | .frustum _ _ => .node "VolSphereFrustumConeUnion" self obj
+      | .node _ _ _ => .node "VolSDFUnion" self obj)) := by
+  obtain ⟨h1, h2, -⟩ := isA_facts obj hx
+  have h3 := (sdf_ops_eq self obj hx).1
+  cases obj with
+  | sphere n => simp [sphere_union, sphere_union.body, Py.seq, Py.skip, Py.finishX, h1, Py.VObj.cls]
+  | frustum a b =>
+    have e1 : Py.VObj.isA HIER (Py.VObj.frustum a b) "VolSphere" = false := by rw [h1]; simp [Py.VObj.cls]
+    simp [sphere_union, sphere_union.body, Py.seq, Py.skip, Py.finishX, e1, h2, Py.VObj.cls]
+  | node c a b =>
+    have hc := composite_ne c hx
+    have e1 : Py.VObj.isA HIER (Py.VObj.node c a b) "VolSphere" = false := by rw [h1]; simp [Py.VObj.cls, hc.1]
+    have e2 : Py.VObj.isA HIER (Py.VObj.node c a b) "VolFrustumCone" = false := by rw [h2]; simp [Py.VObj.cls, hc.2]
+    simp [sphere_union, sphere_union.body, Py.seq, Py.skip, Py.finishX, Py.bindX, e1, e2, h3]
+
+/-- **`VolSphere.intersect`** -/
+theorem sphere_intersect_eq (self obj : Py.VObj) (hx : Known obj) :
+    sphere_intersect self obj = some (.ok (match obj with
+      | .sphere _ => .node "VolSphere2Intersection" self obj
+      | .frustum _ _ => .node "VolSphereFrustumConeIntersection" self obj
+      | .node _ _ _ => .node "VolSDFIntersection" self obj)) := by
+  obtain ⟨h1, h2, -⟩ := isA_facts obj hx
+  have h3 := (sdf_ops_eq self obj hx).2.1
+  cases obj with
+  | sphere n => simp [sphere_intersect, sphere_intersect.body, Py.seq, Py.skip, Py.finishX, h1, Py.VObj.cls]
+  | frustum a b =>
+    have e1 : Py.VObj.isA HIER (Py.VObj.frustum a b) "VolSphere" = false := by rw [h1]; simp [Py.VObj.cls]
+    simp [sphere_intersect, sphere_intersect.body, Py.seq, Py.skip, Py.finishX, e1, h2, Py.VObj.cls]
+  | node c a b =>
+    have hc := composite_ne c hx
+    have e1 : Py.VObj.isA HIER (Py.VObj.node c a b) "VolSphere" = false := by rw [h1]; simp [Py.VObj.cls, hc.1]
+    have e2 : Py.VObj.isA HIER (Py.VObj.node c a b) "VolFrustumCone" = false := by rw [h2]; simp [Py.VObj.cls, hc.2]
+    simp [sphere_intersect, sphere_intersect.body, Py.seq, Py.skip, Py.finishX, Py.bindX, e1, e2, h3]
+
+/-- **`VolFrustumCone.union / intersect`**: with a sphere the sphere-frustum union WITH THE SPHERE FIRST; otherwise the generic SDF union; the
+intersection is always the generic SDF intersection (no closed form is selected from the frustum's side) -/
+theorem frustum_ops_eq (self obj : Py.VObj) (hx : Known obj) :
+    frustum_union self obj = some (.ok (match obj with
+      | .sphere _ => .node "VolSphereFrustumConeUnion" obj self
+      | _ => .node "VolSDFUnion" self obj))
+    ∧ frustum_intersect self obj = some (.ok (.node "VolSDFIntersection" self obj)) := by
+  obtain ⟨h1, -, -⟩ := isA_facts obj hx
+  obtain ⟨h3, h4, -⟩ := sdf_ops_eq self obj hx
+  refine ⟨?_, by simp [frustum_intersect, frustum_intersect.body, Py.finishX, Py.bindX, h4]⟩
+  cases obj with
+  | sphere n => simp [frustum_union, frustum_union.body, Py.seq, Py.skip, Py.finishX, h1, Py.VObj.cls]
+  | frustum a b =>
+    have e1 : Py.VObj.isA HIER (Py.VObj.frustum a b) "VolSphere" = false := by rw [h1]; simp [Py.VObj.cls]
+    simp [frustum_union, frustum_union.body, Py.seq, Py.skip, Py.finishX, Py.bindX, e1, h3]
+  | node c a b =>
+    have hc := (composite_ne c hx).1
+    have e1 : Py.VObj.isA HIER (Py.VObj.node c a b) "VolSphere" = false := by rw [h1]; simp [Py.VObj.cls, hc]
+    simp [frustum_union, frustum_union.body, Py.seq, Py.skip, Py.finishX, Py.bindX, e1, h3]
+
+variable {K : Type} [Inhabited K] [Add K] [Sub K] [Mul K] [OfNat K 0] [OfNat K 1] [LT K] [DecidableLT K] [LE K] [DecidableLE K]
+variable (getVolume : Py.VObj → K) (concentric lens : Py.VObj → Py.VObj → K) (mcVolume : Py.VObj → K) (sameC1 sameR1 sameC2 sameR2 : Py.VObj → Py.VObj → Bool)
+
+/-- **inclusion–exclusion at the union nodes**: `V(obj1) + V(obj2) − V(obj1 ∩ obj2)`, the intersection by the closed form of the class -/
+theorem union_get_volume_eq (c : String) (a b : Py.VObj) :
+    sfu_get_volume getVolume concentric lens mcVolume sameC1 sameR1 sameC2 sameR2 (.node c a b) = some (getVolume a + getVolume b - concentric a b)
+    ∧ s2u_get_volume getVolume concentric lens mcVolume sameC1 sameR1 sameC2 sameR2 (.node c a b) = some (getVolume a + getVolume b - lens a b) := by
+  simp [sfu_get_volume, sfu_get_volume.body, s2u_get_volume, s2u_get_volume.body, Py.bind, Py.VObj.obj1, Py.VObj.obj2, Py.finish]
+
+/-- **sphere ∩ frustum**: the closed form exactly when the sphere coincides (centre AND radius, `np.allclose`) with the first or with the second
+end of the frustum; the Monte-Carlo estimate of the object otherwise -/
+theorem sfi_get_volume_eq (c : String) (a b : Py.VObj) :
+    sfi_get_volume getVolume concentric lens mcVolume sameC1 sameR1 sameC2 sameR2 (.node c a b)
+      = some (if (sameC1 a b && sameR1 a b) || (sameC2 a b && sameR2 a b) then concentric a b else mcVolume (.node c a b)) := by
+  cases h1 : sameC1 a b <;> cases h2 : sameR1 a b <;> cases h3 : sameC2 a b <;> cases h4 : sameR2 a b <;>
+    simp [sfi_get_volume, sfi_get_volume.body, Py.seq, Py.skip, Py.bind, Py.VObj.obj1, Py.VObj.obj2, Py.finish, h1, h2, h3, h4]
+
+/-- **the cache of `VolObject.get_volume`** (no keyword arguments): a cached value is returned without computing; otherwise the computed value is
+returned and stored -/
+theorem obj_get_volume_eq (compute : K) (vol : Option K) :
+    obj_get_volume compute vol = some (some (vol.getD compute), vol.getD compute) := by
+  cases vol <;> simp [obj_get_volume, obj_get_volume.body, Py.seq, Py.skip, Py.bind, Py.finish]
+
+/-- **what `leave` requests**: `sphere.intersect(fc).get_volume()` for a sphere and a frustum one of whose ends IS that sphere (the `np.allclose`
+tests of that end succeed) — the object built is the sphere-frustum intersection and its volume is the closed form; Monte Carlo is not used -/
+theorem leave_intersection_closed_form (n a b : Int)
+    (hend : ((sameC1 (.sphere n) (.frustum a b) && sameR1 (.sphere n) (.frustum a b)) || (sameC2 (.sphere n) (.frustum a b) && sameR2 (.sphere n) (.frustum a b))) = true) :
+    ∃ o, sphere_intersect (.sphere n) (.frustum a b) = some (.ok o)
+      ∧ sfi_get_volume getVolume concentric lens mcVolume sameC1 sameR1 sameC2 sameR2 o = some (concentric (.sphere n) (.frustum a b)) := by
+  refine ⟨_, sphere_intersect_eq (.sphere n) (.frustum a b) trivial, ?_⟩
+  simp only [sfi_get_volume_eq]
+  simp [hend]
+
+end objects
+
+/-- non-vacuity of the dispatch theorems: kernel-evaluated calls of the generated methods -/
+example : [sphere_union (.sphere 1) (.sphere 2), sphere_union (.sphere 1) (.frustum 1 2), frustum_union (.frustum 1 2) (.sphere 2),
+           frustum_intersect (.frustum 1 2) (.sphere 1), sphere_intersect (.sphere 1) (.node "VolSphere2Union" (.sphere 1) (.sphere 2)),
+           sdf_union (.sphere 1) (.node "Foreign" (.sphere 1) (.sphere 2))]
+    = [some (.ok (.node "VolSphere2Union" (.sphere 1) (.sphere 2))), some (.ok (.node "VolSphereFrustumConeUnion" (.sphere 1) (.frustum 1 2))),
+       some (.ok (.node "VolSphereFrustumConeUnion" (.sphere 2) (.frustum 1 2))), some (.ok (.node "VolSDFIntersection" (.frustum 1 2) (.sphere 1))),
+       some (.ok (.node "VolSDFIntersection" (.sphere 1) (.node "VolSphere2Union" (.sphere 1) (.sphere 2)))), some (.error notImplemented)] := by
+  decide +kernel
+
 end RefineVolFront
